@@ -99,10 +99,7 @@ func genN(r *rand.Rand, l int) int {
 	case 7:
 		return l + 2 + r.Intn(100)
 	case 8:
-		if r.Intn(2) == 0 {
-			return math.MaxInt64
-		}
-		return math.MinInt64
+		return []int{math.MaxInt64, math.MinInt64, 32768, 65536, 65539, 1 << 31, 1<<32 + 5, 1 << 20, -32769, math.MinInt32}[r.Intn(10)]
 	}
 	if l > 0 {
 		return r.Intn(l + 1)
@@ -398,6 +395,67 @@ func fixedStream(e *vh.Env) {
 			run(e, spec{Kind: "bin", Op: op, A: hexWords(b), B: hexWords(two)})
 		}
 	}
+	// ---- boundary values of n (int bookkeeping narrower than int: int16 / int32 / uint32 counters), every entry point and width.
+	// The slice is sized pos+min(n,Len) - only min(n, Len) slots are ever needed - once exactly and once with slack.
+	bigNs := []int{32767, 32768, 65535, 65536, 65539, 1 << 20, 1<<31 - 1, 1 << 31, 1<<32 + 5, math.MaxInt64,
+		-1, -32768, -32769, -65536, math.MinInt32, math.MinInt64}
+	edge := fromMembers(0, 63, 64, 127, 128, 959, 960, 1023)
+	for _, t := range types64 {
+		for _, rev := range []bool{false, true} {
+			for wi, w := range []uint64{0x80000000000001ff, 0x8000000000000001} {
+				l := bits.OnesCount64(w)
+				for ni, n := range bigNs {
+					c := expCount(n, l)
+					slack := (ni + wi) % 2 * 2
+					run(e, spec{Kind: "iter64", Ty: int(t), Rev: rev, Magic: []int32{9, -1, 64}[ni%3], A: one(w), BufL: 2 + c + slack, Seed: 3, Pos: 2, Add: int64(ni), N: n})
+				}
+			}
+		}
+	}
+	for _, t := range types1024 {
+		for _, rev := range []bool{false, true} {
+			for bi, b := range [][]bm.Bit64{edge, two} {
+				l := popcount1024(b)
+				for ni, n := range bigNs {
+					c := expCount(n, l)
+					slack := (ni + bi) % 2 * 3
+					run(e, spec{Kind: "iter1024", Ty: int(t), Rev: rev, Magic: 9, A: hexWords(b), BufL: 1 + c + slack, Seed: 7, Pos: 1, Add: int64(100 + ni), N: n})
+				}
+			}
+			// a huge pos with something to write must panic, with nothing to write it is never looked at
+			for _, pos := range []int{1 << 31, 1<<32 + 5, -1 << 31} {
+				run(e, spec{Kind: "iter1024", Ty: int(t), Rev: rev, Magic: 9, A: hexWords(edge), BufL: 9, Seed: 7, Pos: pos, Add: 1, N: 70000})
+				run(e, spec{Kind: "iter1024", Ty: int(t), Rev: rev, Magic: 9, A: hexWords(edge), BufL: 9, Seed: 7, Pos: pos, Add: 1, N: -70000})
+			}
+		}
+	}
+	// GetN allocates make([]T, n): n up to 65539 only (and the negatives, which make rejects)
+	getNs := []int{32767, 32768, 65535, 65536, 65539, -32768, -32769, math.MinInt32, math.MinInt64}
+	for _, t := range typesGet64 {
+		for _, rev := range []bool{false, true} {
+			for _, n := range getNs {
+				run(e, spec{Kind: "get64", Ty: int(t), Rev: rev, Magic: 9, A: one(0x80000000000001ff), N: n})
+			}
+		}
+	}
+	for _, t := range typesGet1024 {
+		for _, rev := range []bool{false, true} {
+			for _, n := range getNs {
+				run(e, spec{Kind: "get1024", Ty: int(t), Rev: rev, Magic: 9, A: hexWords(edge), N: n})
+			}
+		}
+	}
+	// ---- Equal: differences that cancel when the words are combined arithmetically (sum / xor of the per-word differences)
+	for _, base := range [][]bm.Bit64{empty1024(), two, full} {
+		for _, p := range equalPatterns() {
+			c := append([]bm.Bit64{}, base...)
+			for k, d := range p {
+				c[k] ^= bm.Bit64(d)
+			}
+			run(e, spec{Kind: "equal", A: hexWords(base), B: hexWords(c)})
+			run(e, spec{Kind: "equal", A: hexWords(c), B: hexWords(base)})
+		}
+	}
 	for k := 0; k < 16; k++ { // Equal must look at every word
 		c := append([]bm.Bit64{}, two...)
 		c[k] ^= 1 << 40
@@ -577,7 +635,22 @@ func generate(e *vh.Env) {
 	pair := func() ([]bm.Bit64, []bm.Bit64) {
 		a := gen1024(r)
 		var b []bm.Bit64
-		switch r.Intn(4) {
+		switch r.Intn(5) {
+		case 4: // differences that cancel arithmetically (equalPatterns), on a random base
+			b = append([]bm.Bit64{}, a...)
+			ps := equalPatterns()
+			for k, d := range ps[r.Intn(len(ps))] {
+				b[k] ^= bm.Bit64(d)
+			}
+			if r.Intn(3) == 0 { // the same bit in two random words
+				b = append([]bm.Bit64{}, a...)
+				bit := bm.Bit64(1) << uint([]int{63, 63, r.Intn(64)}[r.Intn(3)])
+				i, j := r.Intn(16), r.Intn(16)
+				b[i] ^= bit
+				if j != i {
+					b[j] ^= bit
+				}
+			}
 		case 0: // equal
 			b = append([]bm.Bit64{}, a...)
 		case 1: // differs in exactly one bit of one word (first, last or any word)
@@ -657,11 +730,12 @@ func genMut(r *rand.Rand, a int) progOp {
 }
 
 // genProg: at most 12 steps, at most 7 pool members.
-//   "alias": (1) two operands whose result is empty / equal to an operand / x op x, (2) mutate the RESULT,
-//   (3) the same kind of operation again on other operands, (4) mutate that result and the operands; every member
-//   is observed after every step, so a result that shares storage with an operand, with an earlier result or with a
-//   package-level value shows as soon as either side changes.
-//   "random": any mix, operands biased to the most recent members and to a == b.
+//
+//	"alias": (1) two operands whose result is empty / equal to an operand / x op x, (2) mutate the RESULT,
+//	(3) the same kind of operation again on other operands, (4) mutate that result and the operands; every member
+//	is observed after every step, so a result that shares storage with an operand, with an earlier result or with a
+//	package-level value shows as soon as either side changes.
+//	"random": any mix, operands biased to the most recent members and to a == b.
 func genProg(r *rand.Rand, pat string, k int) []progOp {
 	var ops []progOp
 	n := 0 // pool size
@@ -755,4 +829,30 @@ func genProg(r *rand.Rand, pat string, k int) []progOp {
 		}
 	}
 	return ops
+}
+
+// equalPatterns: per-word XOR differences (word index -> difference) whose sum, xor, or both vanish modulo 2^64 although the
+// bitmaps differ: the same bit in 2 / 4 / 8 / 16 words (bit 63 twice sums to 2^64), identical differences in two words
+// (xor cancels), a difference and its arithmetic negative, plus plain one-bit differences.
+func equalPatterns() []map[int]uint64 {
+	ps := []map[int]uint64{
+		{0: 1 << 63, 1: 1 << 63},                           // {63} vs {127}
+		{0: 1 << 63, 15: 1 << 63},                          // top bit of the first and the last word
+		{7: 1 << 63, 8: 1 << 63},                           //
+		{0: 1 << 63, 1: 1 << 63, 2: 1 << 63, 3: 1 << 63},   // bit 63 in four words
+		{0: 1 << 62, 5: 1 << 62, 10: 1 << 62, 15: 1 << 62}, // bit 62 in four words: 4 * 2^62 = 2^64
+		{3: 5, 4: ^uint64(5) + 1},                          // d and -d
+		{0: 1, 15: ^uint64(0)},                             // 1 and -1
+		{2: 0x123456789abcdef0, 9: ^uint64(0x123456789abcdef0) + 1},
+		{1: 0xdeadbeef, 14: 0xdeadbeef},     // the same difference twice (xor of the differences is 0)
+		{0: 1}, {15: 1 << 63}, {8: 1 << 31}, // one flip
+	}
+	p8, p16 := map[int]uint64{}, map[int]uint64{}
+	for k := 0; k < 16; k++ {
+		p16[k] = 1 << 60 // bit 60 in all sixteen words: 16 * 2^60 = 2^64
+		if k%2 == 0 {
+			p8[k] = 1 << 61 // bit 61 in eight words
+		}
+	}
+	return append(ps, p8, p16)
 }
